@@ -37,6 +37,7 @@ __all__ = ["default_scalar_value_to_literal", "value_to_literal"]
 
 _re_integer_string = re.compile("^-?(?:0|[1-9][0-9]*)$")
 _re_name = re.compile("[_a-zA-Z][_a-zA-Z0-9]*")
+_re_surrogate = re.compile("[\\ud800-\\udfff]")
 
 
 def value_to_literal(value: Any, type_: GraphQLInputType) -> ConstValueNode | None:
@@ -135,6 +136,10 @@ def default_scalar_value_to_literal(value: Any) -> ConstValueNode:
         return BooleanValueNode(value=value)
 
     if isinstance(value, str):
+        # A lone surrogate can neither be written nor escaped in a StringValue.
+        if _re_surrogate.search(value):
+            msg = f"Cannot convert value to AST: {inspect(value)}."
+            raise TypeError(msg)
         return StringValueNode(value=value, block=False)
 
     if isinstance(value, (int, float)):
